@@ -66,6 +66,16 @@ CHECKS = {
         note=TRUST + "Arithmetic of counts and ranges for every input is not decided.",
         technique="static analysis: guarded call-graph reachability, origin trees of guard conditions, who-may-call",
     ),
+    "C12": dict(
+        category="other",
+        text="Wiring decided exactly: each of the 17 setter calls is control dependent on the Cli field of its documented flag (pre-expansion attributes), "
+             "threshold/surrogate values come from their own flags, stdout receives build()'s value plus newline, exit 1 only after stderr; the three "
+             "line channels use lines() with identity maps; the zero-rejecting value parser guards both thresholds; no panic-on-unusable-input construct "
+             "is reachable from main.",
+        design_ref="DESIGN.md §4 C12",
+        note=TRUST + "clap's own parsing and the operating system's delivery of stdout/stderr are trusted; actual process output is not observed.",
+        technique="static analysis: control dependence against pre-expansion clap attributes, origin trees of printed values, constant propagation of the value parser",
+    ),
 }
 
 NOT_APPLICABLE = {
